@@ -196,16 +196,17 @@ def c13_alpha_rename(s: str) -> bool:
     return ok
 
 
-def c13_other_templates(layout: int, order: int) -> bool:
+def c13_other_templates(layout: int, order: int, where: int) -> bool:
     """
     Independence across DIFFERENT templates: the instantiation a typedef produces (projection and pybind block) is the
     same whether or not another template of the same name — in a sibling, enclosing, nested or suffix-related
-    namespace — is declared and instantiated in the same run.
-    pre: 0 <= layout < 5 and 0 <= order <= 1
+    namespace — is declared and instantiated in the same run; typedefs at global scope or inside a namespace (before or
+    after the templates).
+    pre: 0 <= layout < 5 and 0 <= order <= 1 and 0 <= where <= 2
     post: _
     """
     from harness import c08_product as P
-    layout, order = pick(layout, 0, len(P.SAME_LAYOUTS)), pick(order, 0, 2)
+    layout, order, where = pick(layout, 0, len(P.SAME_LAYOUTS)), pick(order, 0, 2), pick(where, 0, 3)
     with concrete():
         problems = []
 
@@ -214,16 +215,83 @@ def c13_other_templates(layout: int, order: int) -> bool:
             w = PybindWrapper(module_name="m", top_module_namespaces=[''], ignore_classes=[''], module_template=pipe.PYBIND_TPL)
             return {c.name: (w.wrap_instantiated_class(c), p_decl(c)) for n in ("BoxA", "BoxB") for c in P.find_all(mod, n, [])}
         try:
-            both = blocks(P.build_same_name(layout, order)[0])
+            both = blocks(P.build_same_name(layout, order, where=where)[0])
             for alias, kw in (("BoxA", dict(with_second=False)), ("BoxB", dict(with_first=False))):
-                alone = blocks(P.build_same_name(layout, order, **kw)[0])
+                alone = blocks(P.build_same_name(layout, order, where=where, **kw)[0])
                 if both.get(alias) != alone.get(alias):
                     problems.append("%s differs when the other template of the same name is present: %r" % (
                         alias, [(a, b) for a, b in zip((both.get(alias) or ("",))[0].split("\n"), (alone.get(alias) or ("",))[0].split("\n")) if a != b][:2]))
         except Exception as ex:
             problems.append("raised %r" % ex)
-        ok = not problems or _fail(text=P.build_same_name(layout, order)[0], problems=problems)
-    reached({"layout": layout, "order": order})
+        ok = not problems or _fail(text=P.build_same_name(layout, order, where=where)[0], problems=problems)
+    reached({"layout": layout, "order": order, "where": where})
+    return ok
+
+
+FRESH_TEXTS = [
+    "namespace fwd { typedef geo::Box<int> BoxI; typedef geo::make<int> makeI; }\nnamespace geo { template<T = {double}> class Box { Box(const T& w); T width() const; }; template<T> T make(T seed); }",
+    "namespace fwd { typedef geo::Box<int> BoxI; typedef geo::make<int> makeI; }\nnamespace geo { template<SCALAR = {double}> class Box { Box(const SCALAR& h, const SCALAR& d); SCALAR height() const; SCALAR depth() const; }; template<U> void make(U a, U b); }",
+    "namespace geo { template<T = {double}> class Box { Box(); static This Unit(); void scale(T f); }; template<T> T make(); }\nnamespace fwd { typedef geo::Box<int> BoxI; typedef geo::make<int> makeI; }",
+    "template<T = {double}> class Box { Box(T only); };\nnamespace geo { class Plain { Plain(); }; }\ntypedef Box<int> BoxI;",
+    "typedef Box<int> BoxI;\ntemplate<K = {double}> class Box { Box(K a, K b, K c); K third() const; };",
+    "namespace geo { typedef geo::Box<int> BoxI; template<V = {double}> class Box { Box(); V vol() const; }; }",
+]
+_FRESH_REF = {}
+
+
+def fresh_result(text):
+    """projection + pybind text of every instantiated class / function of a fresh parse of `text`"""
+    mod = ti.instantiate_namespace(parser.Module.parseString(text))
+    w = PybindWrapper(module_name="m", top_module_namespaces=[''], ignore_classes=[''], module_template=pipe.PYBIND_TPL)
+    out = []
+
+    def visit(ns, path):
+        for e in ns.content:
+            if isinstance(e, parser.Namespace):
+                visit(e, path + [e.name])
+            elif isinstance(e, ti.InstantiatedClass):
+                out.append(["::".join(path + [e.name]), e.to_cpp(), repr(p_decl(e)), w.wrap_instantiated_class(e)])
+            elif isinstance(e, (ti.InstantiatedGlobalFunction, ti.InstantiatedDeclaration)):
+                out.append(["::".join(path + [e.name]), e.to_cpp(), repr(p_decl(e)), ""])
+    visit(mod, [])
+    return out
+
+
+def c13_fresh_parses(first: int, second: int, last: int) -> bool:
+    """
+    "How often instantiation is performed on fresh parses": instantiating a freshly parsed module after zero, one or
+    two OTHER freshly parsed modules were instantiated in the same process — modules that declare templates with the
+    same qualified names but other parameters and members, with the typedefs before or after the templates — gives
+    exactly what a pristine interpreter gives for it.
+    pre: 0 <= first <= len(FRESH_TEXTS) and 0 <= second <= len(FRESH_TEXTS) and 0 <= last < len(FRESH_TEXTS)
+    post: _
+    """
+    NF = len(FRESH_TEXTS)
+    first, last = pick(first, 0, NF + 1), pick(last, 0, NF)
+    second = pick(second, 0, NF + 1) if THOROUGH else (first + 2 * last + 1) % (NF + 1)          # quick: the second earlier text is derived
+    with concrete():
+        import json
+        import subprocess
+        import sys
+        from vlib.common import ROOT
+        ok = True
+        if last not in _FRESH_REF:
+            script = ("import sys, json\nsys.path.insert(0, %r)\nfrom harness import c13\n"
+                      "print(json.dumps(c13.fresh_result(c13.FRESH_TEXTS[int(sys.argv[1])])))" % ROOT)
+            p = subprocess.run([sys.executable, "-c", script, str(last)], capture_output=True, text=True, env=dict(os.environ))
+            if p.returncode != 0:
+                ok = _fail(problem="reference interpreter failed: " + p.stderr[-400:])
+            else:
+                _FRESH_REF[last] = json.loads(p.stdout.strip().splitlines()[-1])
+        if ok:
+            earlier = [FRESH_TEXTS[i] for i in (first, second) if i < NF]
+            for t in earlier:
+                fresh_result(t)
+            got = json.loads(json.dumps(fresh_result(FRESH_TEXTS[last])))
+            if got != _FRESH_REF[last]:
+                ok = _fail(earlier=earlier, text=FRESH_TEXTS[last],
+                           differs=[(a[:2], b[:2]) for a, b in zip(got, _FRESH_REF[last]) if a != b][:3] or "different entities")
+    reached({"first": first, "second": second, "last": last})
     return ok
 
 
@@ -236,7 +304,9 @@ def conds(tier):
                 bounds="all 15 ordered non-empty subsets of a 3-element instantiation list, class + function template, pybind"),
         xh.Cond(M, "c13_independence_matlab", t(300, 900), kind="shape-bounded", path_timeout=90, examples=["order=3", "order=0"],
                 bounds="all 15 ordered non-empty subsets, pybind and MATLAB classdefs"),
-        xh.Cond(M, "c13_other_templates", t(120, 600), kind="shape-bounded", examples=["layout=1, order=0", "layout=2, order=1", "layout=0, order=0"],
-                bounds="5 namespace layouts of two same-named templates x 2 typedef orders"),
+        xh.Cond(M, "c13_fresh_parses", t(240, 900), kind="shape-bounded", path_timeout=60, examples=["first=0, second=6, last=1", "first=2, second=0, last=1", "first=6, second=6, last=0", "first=3, second=4, last=5"],
+                bounds="6 module texts sharing qualified template names: %s earlier fresh parses before each text, compared with a pristine interpreter" % ("every sequence of 0-2" if not q else "0-2 (the second derived)")),
+        xh.Cond(M, "c13_other_templates", t(120, 600), kind="shape-bounded", examples=["layout=1, order=0, where=0", "layout=2, order=1, where=1", "layout=0, order=0, where=2"],
+                bounds="5 namespace layouts of two same-named templates x 2 typedef orders x 3 places of the typedef block"),
         xh.Cond(M, "c13_alpha_rename", t(300, 1800), examples=["s='T'", "s='X9'", "s='V'", "s='ts'", "s='s'", "s='ar'", "s='e'"], bounds="all unused identifiers of length <= %d as the parameter name" % (2 if q else 3)),
     ]
